@@ -15,7 +15,9 @@ import (
 	"strconv"
 )
 
-const schedPath = "berty.tech/weshnet/v2/internal/verifsim/sched"
+var schedPath = "berty.tech/weshnet/v2/internal/verifsim/sched"
+
+const orderPath = "berty.tech/weshnet/v2/pkg/verifsimorder"
 
 type rewriter struct {
 	fset  *token.FileSet
@@ -30,6 +32,7 @@ func main() {
 	out := flag.String("out", "", "output file")
 	rel := flag.String("rel", "", "path shown in sites")
 	rangesOnly := flag.Bool("ranges-only", false, "only rewrite range statements over maps (seeded iteration order), no scheduling points")
+	orderPkg := flag.Bool("order-pkg", false, "import the standalone map-order package instead of the scheduler package (files of dependencies)")
 	flag.Parse()
 	fset := token.NewFileSet()
 	f, err := parser.ParseFile(fset, *in, nil, parser.ParseComments)
@@ -58,6 +61,9 @@ func main() {
 		// function literals in package-level var initialisers are left alone
 	}
 	if rw.n > 0 {
+		if *orderPkg {
+			schedPath = orderPath
+		}
 		addImport(f)
 	}
 	of, err := os.Create(*out)
